@@ -725,6 +725,9 @@ class FedSim(object):
                         a.conditions.audience_restriction = [
                             saml.AudienceRestriction(audience=[saml.Audience(
                                 text=(ra["sp_entity_id"] if x == "$sp" else x)) for x in grp]) for grp in d["audiences"]]
+                    if "issue_instant" in d:
+                        # the answer's IssueInstant (offset from the authority's clock), everything else fresh
+                        resp.issue_instant = wire.fmt_ts(idp_now + d["issue_instant"], d.get("style", "Z"))
                     to_sign = []
                     if p.get("sign_assertion"):
                         a.signature = pre_signature_part(a.id, srv.sec.my_cert, 1, sign_alg=p.get("sigalg"),
